@@ -358,6 +358,10 @@ def check(ctx, run):  # noqa: F811
     closed_form_precision_rule(ctx, run, "C07.R7", ["d1", "d2", "ncdf", "npdf", "bs_european_price", "bs_european_binary_price", "bs_american_binary_price", "bs_lookback_price"],
                                "float time to maturity / volatility / strike and constants are not rounded to the default dtype")
     derivative_state_precision(ctx, run)
+    # R7h: the state the modules read off a derivative is the current one: re-simulating or re-configuring the underlier replaces every series
+    from ..registry import reconfigure_rule, resimulation_rule
+    reconfigure_rule(ctx, run, "C07.R7h")
+    resimulation_rule(ctx, run, "C07.R7h", only=("resim-state",))
     factory_lookup(ctx, run)
     B.default_call_is_call(ctx.prog, ctx.interp, run, "C07.R5", ["bs_european_price", "bs_european_binary_price"])
     if ctx.tier == "thorough":
